@@ -148,10 +148,13 @@ HARNESS(h_radix_rank)
 #define RKEY uint8_t
 #endif
 struct RIdent { RKEY operator()(const RKEY& v) const { return v; } };
+#ifndef RMAXN
+#define RMAXN 4
+#endif
 HARNESS(h_radixheap)
 {
     typedef tlx::RadixHeap<RKEY, RIdent, RKEY, RADIX> Heap;
-    Heap* hp = new Heap(); RKEY mv[MAXN]; unsigned n = 0;
+    Heap* hp = new Heap(); RKEY mv[RMAXN]; unsigned n = 0;
     bool has_limit = false; RKEY limit = 0;      // most recently extracted / inspected minimum: later keys must not be smaller (documented monotonicity)
     for (unsigned step = 0; step < H; ++step) {
 #ifdef SCRIPT
@@ -162,29 +165,31 @@ HARNESS(h_radixheap)
 #else
         unsigned op = nondet_below(7); RKEY x = (RKEY)nondet_u8(); OBS(op);
 #endif
-        unsigned mi = 0; for (unsigned i = 1; i < MAXN; ++i) if (i < n && mv[i] < mv[mi]) mi = i;
+        unsigned mi = 0; for (unsigned i = 1; i < RMAXN; ++i) if (i < n && mv[i] < mv[mi]) mi = i;
         switch (op) {
-        case 0: case 1: if (n < MAXN && (!has_limit || !(x < limit))) { if (op == 0) hp->push(x); else hp->emplace(x, x); mv[n++] = x; } break;
+        case 0: case 1: if (n < RMAXN && (!has_limit || !(x < limit))) { if (op == 0) hp->push(x); else hp->emplace(x, x); mv[n++] = x; } break;
         case 2: if (n > 0) { CHECK(hp->top() == mv[mi], "top() is a minimum element"); has_limit = true; limit = mv[mi]; } break;
-        case 3: if (n > 0) { has_limit = true; limit = mv[mi]; hp->pop(); for (unsigned i = mi; i + 1 < MAXN; ++i) if (i + 1 < n) mv[i] = mv[i + 1]; --n; } break;
+        case 3: if (n > 0) { has_limit = true; limit = mv[mi]; hp->pop(); for (unsigned i = mi; i + 1 < RMAXN; ++i) if (i + 1 < n) mv[i] = mv[i + 1]; --n; } break;
         case 4: if (n > 0) { CHECK(hp->peak_top_key() == mv[mi], "peak_top_key() is the smallest stored key"); } break;
-        case 5: if (n > 0) { std::vector<RKEY> ex; ex.reserve(MAXN); RKEY mk = mv[mi]; has_limit = true; limit = mk; hp->swap_top_bucket(ex);
-                    unsigned cnt = 0; for (unsigned i = 0; i < MAXN; ++i) if (i < n && mv[i] == mk) ++cnt;
+        case 5: if (n > 0) { std::vector<RKEY> ex; ex.reserve(RMAXN); RKEY mk = mv[mi]; has_limit = true; limit = mk; hp->swap_top_bucket(ex);
+                    unsigned cnt = 0; for (unsigned i = 0; i < RMAXN; ++i) if (i < n && mv[i] == mk) ++cnt;
                     CHECK(ex.size() == cnt, "swap_top_bucket hands out exactly the elements with the minimal key");
-                    for (unsigned i = 0; i < MAXN; ++i) if (i < ex.size()) CHECK(ex[i] == mk, "swap_top_bucket hands out minimal elements only");
-                    unsigned w = 0; for (unsigned i = 0; i < MAXN; ++i) if (i < n && mv[i] != mk) mv[w++] = mv[i]; n = w; } break;
+                    for (unsigned i = 0; i < RMAXN; ++i) if (i < ex.size()) CHECK(ex[i] == mk, "swap_top_bucket hands out minimal elements only");
+                    unsigned w = 0; for (unsigned i = 0; i < RMAXN; ++i) if (i < n && mv[i] != mk) mv[w++] = mv[i]; n = w; } break;
         default: hp->clear(); n = 0; has_limit = false; break;
         }
         CHECK(hp->size() == n && hp->empty() == (n == 0), "size()/empty() equal the multiset model");
     }
+#ifdef DRAIN
     // drain in non-decreasing order
-    for (unsigned k = 0; k < MAXN; ++k) {
+    for (unsigned k = 0; k < RMAXN; ++k) {
         if (n == 0) break;
-        unsigned mi = 0; for (unsigned i = 1; i < MAXN; ++i) if (i < n && mv[i] < mv[mi]) mi = i;
+        unsigned mi = 0; for (unsigned i = 1; i < RMAXN; ++i) if (i < n && mv[i] < mv[mi]) mi = i;
         CHECK(hp->top() == mv[mi], "draining yields the stored multiset in non-decreasing order");
-        hp->pop(); for (unsigned i = mi; i + 1 < MAXN; ++i) if (i + 1 < n) mv[i] = mv[i + 1]; --n;
+        hp->pop(); for (unsigned i = mi; i + 1 < RMAXN; ++i) if (i + 1 < n) mv[i] = mv[i + 1]; --n;
     }
     CHECK(hp->empty(), "heap is empty after draining");
+#endif
     REACH("radix heap history done");
     delete hp;
 }
